@@ -166,6 +166,9 @@ class Repo:
                     tree, exp = expand_unknown_helpers(tree, name, self.known_functions)
                     if exp:
                         self.expanded_helpers[rel] = sorted(set(exp))
+                    from .inline import fold_module_tables
+
+                    n_changed += fold_module_tables(tree)
                     if exp or n_changed:
                         renumber(tree)
                 except RecursionError:  # pragma: no cover
